@@ -248,6 +248,8 @@ class Exec:
             inner = e[2]
             while isinstance(inner, tuple) and inner[0] == "paren":
                 inner = inner[1]
+            if " ".join(str(e[1]).split()) == "uint8_t" and not isinstance(v, tuple) and ops.un_rd_char(ops.b2i(v)) is not None:
+                return ops.un_rd_char(ops.b2i(v))     # (uint8_t) of a plain-char element: the byte stored there
             if " ".join(str(e[1]).split()) == "int" and isinstance(inner, tuple) and inner[0] == "index":
                 # (int) of a string / raw element: every value of char or uint8_t is an int, the conversion preserves the value
                 return ops.b2i(v)
@@ -368,7 +370,11 @@ class Exec:
             name, idx = lv[1], lv[2]
             i = ops.b2i(self.ev(idx, line))
             self.access(name, i, line, lv[3], write=False)
-            return z3.Select(self.st.vals[("buf", name)], i)
+            b = z3.Select(self.st.vals[("buf", name)], i)
+            info = self.L.c.get(name) or {}
+            if info.get("kind") == "buf" and info.get("ctype") == "char" and (lv[3] is None or "uint8_t" not in lv[3]):
+                return ops.rd_char(b)        # an element of a plain-char array: its value as an integer is not the byte (sign)
+            return b
         raise OutsideSubset(f"load {lv!r}")
 
     def elem_bound(self, name, view):
